@@ -52,6 +52,11 @@ static void run_laws(const std::string &name, int n, unsigned seed)
         if (mode == 1) sp->copyState(b, a); else if (mode == 2) sampler->sampleUniformNear(b, a, 1e-4); else if (mode == 3) sampler->sampleUniformNear(b, a, 1e-9); else sampler->sampleUniform(b);
         if (mode == 4) sampler->sampleUniformNear(c, a, 0.5); else sampler->sampleUniform(c);
         if (mode == 5) sampler->sampleGaussian(b, a, 0.3);
+        if (mode == 6 || mode == 7)
+        {   // states that agree in every coordinate but one (e.g. same position, different heading): b (mode 6) or c (mode 7)
+            std::vector<double> ra, rb; sp->copyToReals(ra, a); sp->copyToReals(rb, mode == 6 ? b : c);
+            if (!ra.empty()) { std::size_t k = rng.uniformInt(0, (int)ra.size() - 1); double keep = rb[k]; rb = ra; rb[k] = keep; sp->copyFromReals(mode == 6 ? b : c, rb); sp->enforceBounds(mode == 6 ? b : c); }
+        }
         for (ob::State *s : {a, b, c}) if (!sp->satisfiesBounds(s)) fail(sinb, sstr(sp, s));
         double dab = sp->distance(a, b), dba = sp->distance(b, a), dac = sp->distance(a, c), dbc = sp->distance(b, c);
         std::string w = sstr(sp, a) + " " + sstr(sp, b);
